@@ -8,7 +8,7 @@ from . import net
 from .net import Dense, Block, Coef, COEF1, Unmodelled, TypeViolation, Term, Atom
 from .sym import P, ONE, ZERO
 from .values import *
-from .interp import Raised, Frame, _as_coef, _negate, _NegBool
+from .interp import Raised, Frame, _as_coef, _negate, _NegBool, _int_fact_installers
 
 EXC_NAMES = {"ShapeMismatch", "RankMismatch", "IncompatibleTypes", "InvalidArguments", "NotImplementedError", "Exception",
              "ValueError", "TypeError"}
@@ -27,7 +27,9 @@ def rank_atom(it, name: str, idx: P, d: P) -> P:
 def mode_atom(it, which: str, name: str, idx: P) -> P:
     rep = it.facts.seq_rep(f"{which}_{name}")
     idx = it.facts.norm(idx)
-    return it.facts.norm(P.atom(f"{rep}[{idx!r}]"))
+    a = f"{rep}[{idx!r}]"
+    it.facts.atom_index.setdefault(a, (rep, idx))
+    return it.facts.norm(P.atom(a))
 
 
 def core_atom(it, tt: VTT, k: P) -> VTensor:
@@ -184,6 +186,7 @@ def subscript(it, base, idx, fr, node):
                 hi = base.length + hi
             s = VSeq(base.name + f"[{lo!r}:{hi!r}]", it.facts.norm(hi - lo), base.get, it.facts.norm(base.lo + lo))
             s.whole = False
+            s.base = getattr(base, "base", base.name)
             return s
         raise Unmodelled("index into a symbolic sequence")
     if isinstance(base, (VList, VTuple)):
@@ -326,26 +329,53 @@ def gather_name(sp, idx: Dense) -> str:
     return "gather:" + net._canon_term(sp, idx.terms[0]).replace(" ", "")
 
 
+def _slice_bounds(it, x: VSlice, total: P):
+    """(offset, size) of a python slice on an axis of size `total`; negative symbolic bounds follow Python semantics
+    (a bound that may be -0 is 0, i.e. the whole axis: decided by a structural fork)"""
+    def resolve(b, default):
+        if b is None:
+            return default
+        if not isinstance(b, VInt):
+            raise Unmodelled("non-integer slice bound")
+        p = it.facts.norm(b.p)
+        neg = it.facts.compare(p, "<", 0)
+        if neg is None:
+            from .interp import _int_fact_installers
+            neg = it.truth(VBool(None, f"{p!r} < 0", *_int_fact_installers("<", p, ZERO)))
+            p = it.facts.norm(b.p)
+        return it.facts.norm(total + p) if neg else p
+    if x.step is not None:
+        raise Unmodelled("stepped slice")
+    lo = resolve(x.lo, ZERO)
+    hi = resolve(x.hi, total)
+    return lo, it.facts.norm(hi - lo)
+
+
 def setitem(it, base: VTensor, sl_node, v, fr):
-    """tensor[slices] = value  (slice assignment into a zeros/block tensor)"""
+    """tensor[slices] = value  (slice assignment into a zeros/block tensor; assignment of 0 clears a region)"""
     idx = it.ev(sl_node, fr)
     items = list(idx.items) if isinstance(idx, VTuple) else [idx]
     blk = base.block()
     if len(items) != blk.ndim():
         raise Unmodelled("partial slice assignment")
+    shape = blk.shape()
     offsets, sizes = [], []
-    for x in items:
+    for ax, x in enumerate(items):
         if isinstance(x, VSlice) and x.lo is None and x.hi is None:
             offsets.append(None)
             sizes.append(None)
-        elif isinstance(x, VSlice) and isinstance(x.lo, VInt) and isinstance(x.hi, VInt) and x.step is None:
-            offsets.append(x.lo.p)
-            sizes.append(x.hi.p - x.lo.p)
-        elif isinstance(x, VSlice) and x.lo is None and isinstance(x.hi, VInt) and x.step is None:
-            offsets.append(ZERO)
-            sizes.append(x.hi.p)
+        elif isinstance(x, VSlice):
+            o, sz = _slice_bounds(it, x, shape[ax])
+            offsets.append(o)
+            sizes.append(sz)
         else:
             raise Unmodelled("slice assignment with a non-slice index")
+    if isinstance(v, (VInt, VFloat)):
+        z = v.p.const_value() if isinstance(v, VInt) else v.x
+        if z == 0:
+            base.val = blk.zero_region(offsets, sizes)
+            return
+        raise Unmodelled("slice assignment of a non-zero scalar")
     if isinstance(v, VTensor):
         val = v.val
     else:
@@ -779,14 +809,22 @@ def builtin(it, name, args, kwargs, fr, node):
             vals = [it.truth(x) for x in v.items]
             return VBool(any(vals) if name == "any" else all(vals))
         if isinstance(v, VSymList):
-            # a guard over all positions: true iff true in some/every class
-            res = []
+            # a guard over all positions: true iff true in some/every position class
+            res, rels = [], []
             for s in v.segments:
                 for ent in s.entries:
                     xs = ent.items if isinstance(ent, ClassEntry) else [ent]
                     for x in xs:
-                        res.append(it.truth(x))
-            return VBool(any(res) if name == "any" else all(res))
+                        t = it.truth(x)
+                        res.append(t)
+                        inner = x.inner if isinstance(x, _NegBool) else x
+                        neg = isinstance(x, _NegBool)
+                        rels.append((s, ent, (t != neg), getattr(inner, "rel", None)))
+            out = any(res) if name == "any" else all(res)
+            # "no position differs" / "every position agrees": generalise the per-class equalities to the whole index range
+            if (name == "any" and not out) or (name == "all" and out):
+                _generalise(it, rels)
+            return VBool(out)
         raise Unmodelled(f"{name} over {type(v).__name__}")
     if name == "set":
         items = it.iter_concrete(args[0]) if args else []
@@ -815,6 +853,35 @@ def builtin(it, name, args, kwargs, fr, node):
     if name in EXC_NAMES:
         return VOpaque("exception:" + name)
     raise Unmodelled(f"builtin {name}")
+
+
+def _generalise(it, rels):
+    """all position classes of one loop established seqA[k] == seqB[k]: record it for the whole range of the loop"""
+    by_seg = {}
+    for seg, ent, truth_of_rel, rel in rels:
+        if rel is None or not isinstance(ent, ClassEntry):
+            return
+        sym, a, b = rel
+        holds_eq = (sym == "==" and truth_of_rel) or (sym != "==" and not truth_of_rel)
+        if not holds_eq:
+            return
+        ia = it.facts.atom_index.get(next(iter(a.atoms()), None)) if a.is_monomial() else None
+        ib = it.facts.atom_index.get(next(iter(b.atoms()), None)) if b.is_monomial() else None
+        if not ia or not ib:
+            return
+        by_seg.setdefault(id(seg), (seg, []))[1].append((ent, ia, ib))
+    for seg, lst in by_seg.values():
+        labels = {e.label for e, _, _ in lst}
+        if not {"first", "interior", "last"} <= labels:
+            continue
+        seqs = {(ia[0], ib[0]) for _, ia, ib in lst}
+        if len(seqs) != 1:
+            continue
+        (sa, sb), = seqs
+        # index of each class equals the loop ordinal (offset 0) for both sequences
+        if all(it.facts.eq(ia[1], ib[1]) and (e.label != "first" or it.facts.eq(ia[1], ZERO)) for e, ia, ib in lst):
+            it.facts.add_partial(sb, sa, ZERO, seg.length, "guard over all positions")
+            it.facts.add_partial(sa, sb, ZERO, ZERO, "")
 
 
 def construct_tt(it, args, kwargs, node):
@@ -847,6 +914,8 @@ def construct_tt(it, args, kwargs, node):
         return VTT(name, nds == {4}, it.facts.norm(n), src, False)
     if isinstance(src, VSeq):
         return VTT(name, None, src.length, src, False)
+    if isinstance(src, VOpaque):
+        return VTT(name, None, P.atom(f"d_{name}"), src, False)      # cores produced by an opaque routine (solver body)
     if isinstance(src, VTensor):
         raise Unmodelled("TT(dense tensor): TT-SVD is not interpreted")
     raise Unmodelled(f"TT({type(src).__name__})")
